@@ -135,3 +135,13 @@ PROPS["C03"] = {
     "stubs": ["Commander: vCmd (reacts to the signal; exit latency eager)"],
     "assumptions": ["children react to the stop signal", "preemption only at labelled yield points and blocking operations"],
 }
+
+PROPS["C05"] = {
+    "harnesses": [
+        {"pkg": "app", "name": "VerifC05_Chain", "quick": {"d": 1}, "thorough": {"d": 2}, "replay_repeat": 8,
+         "bounds": {"chain": "a <- b <- c", "conditions": "completed_successfully/healthy/log_ready per edge", "failure of a": "non-zero exit / start error / bad working dir / stopped by user before ready",
+                    "exit_on_skipped on c": "both"}},
+    ],
+    "stubs": ["Commander: vCmd", "go-health scheduler: harness-driven (no check is ever delivered in this harness)", "os.Stat of the bad working dir: not found"],
+    "assumptions": ["depth 3 (deeper chains by the same argument per edge)"],
+}
